@@ -94,3 +94,17 @@ def craft_sk(s, sk_hex, m, frac=1.0, rng=None):
                 new.append(old[j])
         sk[off + 416 * i: off + 416 * (i + 1)] = S.bit_pack(new, 4096, 13)
     return bytes(sk).hex()
+
+
+def zero_key(s, rho, key):
+    """(pk_hex, sk_hex) of the degenerate key s1 = s2 = 0, hence t = A s1 + s2 = 0, t1 = t0 = 0, for the given rho and K:
+    a key pair the specification allows (KeyGen could produce it), whose signatures have ||c t0|| = 0 and therefore NO hints
+    (every hint row empty) and z = y. Built with the independent bit-packing of pyspec."""
+    import hashlib
+    p = S.P(s)
+    zero = [0] * 256
+    pk = rho + S.simple_bit_pack(zero, 10) * p.k
+    tr = hashlib.shake_256(pk).digest(p.tr)
+    sk = rho + key + tr + S.bit_pack(zero, p.eta, p.etabits) * (p.l + p.k) + S.bit_pack(zero, 4096, 13) * p.k
+    assert len(pk) == p.pk and len(sk) == p.sk
+    return pk.hex(), sk.hex()
